@@ -8,7 +8,7 @@ import random as _random
 
 from . import kernel as _k
 from .rng import IntRandom, stream, rbytes
-from .sync import ThreadingShim, QueueShim, TimeShim, SimLock, SimQueue, patch_threads
+from .sync import ThreadingShim, QueueShim, TimeShim, SimLock, SimRLock, SimEvent, SimQueue, patch_threads
 
 _installed = set()
 
@@ -206,3 +206,45 @@ def reset_process_globals():
         pass
     SimLock._n = 0
     SimQueue._n = 0
+
+
+def auto_rebind(prefixes=("yowsup", "consonance")):
+    """Rebind every module-level reference to threading / queue / time primitives in the loaded
+    modules of the given packages (robust against code that adds a lock or a sleep somewhere new).
+    Call after everything has been imported."""
+    import threading as _th
+    import queue as _q
+    import time as _t
+    real_lock = _th.Lock
+    real_rlock = _th.RLock
+    n = 0
+    for name, mod in list(sys.modules.items()):
+        if mod is None or not any(name == p or name.startswith(p + ".") for p in prefixes):
+            continue
+        d = getattr(mod, "__dict__", None)
+        if d is None:
+            continue
+        for attr, val in list(d.items()):
+            new = None
+            if val is _th:
+                new = ThreadingShim
+            elif val is _q:
+                new = QueueShim
+            elif val is _t:
+                new = TimeShim
+            elif val is real_lock:
+                new = SimLock
+            elif val is real_rlock:
+                new = SimRLock
+            elif val is _th.Event:
+                new = SimEvent
+            elif val is _q.Queue:
+                new = SimQueue
+            elif val is _t.sleep:
+                new = TimeShim.sleep
+            elif val is _t.time:
+                new = TimeShim.time
+            if new is not None:
+                d[attr] = new
+                n += 1
+    return n
